@@ -74,7 +74,8 @@ class Analyzer(object):
                 self.env[p] = F
             self.alias_param[p] = i
         if args.vararg:
-            self.env[args.vararg.arg] = F
+            # the tuple is the callee's, what it holds is the caller's
+            self.env[args.vararg.arg] = FO if borrowed_params == 'all' else F
 
     # ------------------------------------------------------------------ expressions
     def val(self, e):
@@ -321,6 +322,10 @@ class Analyzer(object):
                     self.sink(st, st.target, 'augmented assignment `%s`' % ast.unparse(st)[:60])
             elif isinstance(st.target, ast.Subscript):
                 self.sink(st, st.target.value, 'item update `%s`' % ast.unparse(st)[:60])
+                # `x[i] += y` with a list element extends that element in place
+                if isinstance(st.op, (ast.Add, ast.Mult, ast.BitOr, ast.BitAnd)) and not isinstance(st.value, ast.Constant) and self.val(st.target) == B \
+                        and self.val(st.value) >= FO:
+                    self.sink(st, st.target, 'in-place extension of the element `%s`' % ast.unparse(st)[:60])
             elif isinstance(st.target, ast.Attribute) and st.target.attr in SHARED_STORES:
                 pass
             return
@@ -413,6 +418,10 @@ class Analyzer(object):
             if isinstance(t.value, ast.Attribute) and t.value.attr in SHARED_STORES:
                 return
             self.sink(st, t.value, 'item assignment `%s`' % ast.unparse(t)[:50])
+            # a local container of the callee's own that receives the caller's object (or a fresh wrapper around one) now holds borrowed elements
+            vv = max(v) if isinstance(v, list) else v
+            if isinstance(t.value, ast.Name) and self.env.get(t.value.id, F) == F and isinstance(vv, int) and vv >= FO:
+                self.env[t.value.id] = FO
             return
         if isinstance(t, ast.Attribute):
             return
